@@ -115,6 +115,10 @@ def _retop(line, old, new):
     return ";".join(out)
 
 
+YAML_WORDS = ["yes", "no", "on", "off", "true", "false", "null", "y", "n", "Yes", "NO", "On", "1e3", "0x1F", "1_000", "007",
+              "1.5", ".inf", "nan", "None", "True"]
+
+
 def gfun(a, b):
     s = 0
     for i in range(a):
@@ -141,8 +145,19 @@ def _work(chunk):
                 fails.append((None, "ast-front-end-graph", "to_dict:" + exc_sig(e)))
             n += 1
             continue
-        scfg = export.mk_scfg(succ) if succ is not None else ByteFlow.from_bytecode(gfun).scfg
-        for stage, op in (("input", None), ("closed", "join_returns"), ("loop", "restructure_loop"), ("branch", "restructure_branch")):
+        if succ is None:
+            scfg = ByteFlow.from_bytecode(gfun).scfg
+        elif tag == "yaml-words":
+            # block names that YAML 1.1 reads as booleans / null / numbers unless quoted
+            scfg = export.mk_scfg(succ, YAML_WORDS[:len(succ)])
+        elif tag == "any-digraph":
+            # graphs as the dict/YAML front end accepts them: dead cycles, orphans, several heads
+            scfg = export.mk_scfg(succ, payload="bytecode")
+        else:
+            scfg = export.mk_scfg(succ)
+        stages = (("input", None),) if tag == "any-digraph" else \
+            (("input", None), ("closed", "join_returns"), ("loop", "restructure_loop"), ("branch", "restructure_branch"))
+        for stage, op in stages:
             if op is not None:
                 try:
                     getattr(scfg, op)()
@@ -186,6 +201,14 @@ def run(ctx):
     inputs = [x for x in gen.graph_inputs(ctx["tier"], ctx["seed"]) if len(x[1]) <= 14]
     if ctx["tier"] == "quick":
         inputs = inputs[::2]
+    # the same graphs with YAML-hostile block names (they become region headers, exiting blocks,
+    # parents after restructuring), and arbitrary flat digraphs (not only closed CFGs)
+    inputs += [("yaml-words", s) for _, s in inputs[::7] if 2 <= len(s) <= len(YAML_WORDS)]
+    import random as _r
+    rng = _r.Random(ctx["seed"] * 31 + 15)
+    for _ in range(200 if ctx["tier"] == "quick" else 4000):
+        n = rng.randint(1, 7)
+        inputs.append(("any-digraph", tuple(tuple(sorted(rng.sample(range(n), rng.choice([0, 1, 1, 2, 2]) if n > 1 else rng.choice([0, 1])))) for _ in range(n))))
     inputs.append(("bytecode", None))
     inputs.append(("ast", None))
     nproc = common.ncpu()
